@@ -13,6 +13,7 @@
   Model: `Hv/Conc/Claim.lean`.
 -/
 import Hv.Conc.ClaimLemmas
+import Hv.Conc.LockOrder
 import Hv.Basic.Verdict
 
 namespace Hv.C11
@@ -50,7 +51,7 @@ theorem claims_safe : Holds good := by
   constructor
   intro persisted sched sp hr
   have hi : Inv true sp := LTS.inv_run (step good) (Inv true)
-    (fun s a s' hi hs => inv_step good true rfl rfl (fun _ => ⟨rfl, rfl, rfl⟩) s a s' (fun _ => ⟨rfl, rfl⟩) hi hs)
+    (fun s a s' hi hs => inv_step good true rfl rfl rfl (fun _ => ⟨rfl, rfl, rfl⟩) s a s' (fun _ => ⟨rfl, rfl⟩) hi hs)
     (init persisted) sched sp (inv_init true persisted) hr
   exact safe_of_inv true sp hi rfl
 
@@ -63,9 +64,17 @@ theorem claims_disjoint (persisted : Bool) (sched : List Act) (sp : St × Bool)
 /-- Non-vacuity: two shift claimers and a PatchExpired call in flight around a delete. -/
 example : (run good (init false)
     [.seed 1 1 (-30), .seed 2 1 (-20), .seed 3 2 (-10), .seed 4 1 (-5), .snapshot 1 1, .setStatus 2 2,
-     .pselect 3 1 false, .shift 1 5 (some 1), .delete 3, .ppatch 3 1 4 5000, .preindex 3, .shift 2 5 none]).map
+     .pselect 3 1 false, .shift 1 5 (some 1), .shiftDel 1 4, .delete 3, .ppatch 3 1 4 5000, .preindex 3, .shift 2 5 none,
+     .shiftDel 2 2]).map
     (fun sp => (sp.1.claimed.map (·.key), sp.1.index, sp.1.batches.map (·.got), sp.1.deleted)) =
     some ([4, 2], [1], [[1], [4], [2]], [3]) := by decide
+
+/-- Non-vacuity of the re-validating delete step: record 1's expiry is moved to the future between the selection pass
+    and its delete step — it is not handed out and goes back into the index; record 2 is claimed. -/
+example : (run good (init false)
+    [.seed 1 1 (-10), .seed 2 1 (-5), .shift 1 5 none, .expWrite 1 5000, .shiftDel 1 1, .shiftDel 1 2]).map
+    (fun sp => (sp.1.claimed.map (·.key), sp.1.index, (sp.1.recs 1).present, (sp.1.recs 2).present)) =
+    some ([2], [1], true, false) := by decide
 
 /-! ### the `_partial` statement
 
@@ -81,10 +90,10 @@ structure SafeStructural (sp : St × Bool) : Prop where
   noResurrection : ∀ k ∈ sp.1.deleted, (sp.1.recs k).present = false
 
 def HoldsPartial (c : Cfg) : Prop :=
-  c.selectAtomic = true → c.counterLe = false →
+  c.selectAtomic = true → c.counterLe = false → c.deleteRevalidates = true →
   ∀ persisted sched sp, (∀ a ∈ sched, a.isTail = false) → run c (init persisted) sched = some sp → SafeStructural sp
 
-theorem inv_run_noTail (c : Cfg) (hsa : c.selectAtomic = true) (hle : c.counterLe = false)
+theorem inv_run_noTail (c : Cfg) (hsa : c.selectAtomic = true) (hle : c.counterLe = false) (hdr : c.deleteRevalidates = true)
     (sched : List Act) (s sp : St × Bool) (hnt : ∀ a ∈ sched, a.isTail = false)
     (h0 : Inv false s) (hr : run c s sched = some sp) : Inv false sp := by
   induction sched generalizing s with
@@ -97,11 +106,11 @@ theorem inv_run_noTail (c : Cfg) (hsa : c.selectAtomic = true) (hle : c.counterL
       simp only [hs] at hr
       have ha : a.isTail = false := hnt a (by simp)
       exact ih s1 (fun b hb => hnt b (by simp [hb]))
-        (inv_step c false hsa hle (fun h => by simp at h) s a s1 (fun h => by rw [ha] at h; simp at h) h0 hs) hr
+        (inv_step c false hsa hle hdr (fun h => by simp at h) s a s1 (fun h => by rw [ha] at h; simp at h) h0 hs) hr
 
 theorem holds_partial (c : Cfg) : HoldsPartial c := by
-  intro hsa hle persisted sched sp hnt hr
-  have h := inv_run_noTail c hsa hle sched (init persisted) sp hnt (inv_init false persisted) hr
+  intro hsa hle hdr persisted sched sp hnt hr
+  have h := inv_run_noTail c hsa hle hdr sched (init persisted) sp hnt (inv_init false persisted) hr
   refine ⟨h.once, ?_, h.bat, h.live, fun k hk => (h.dead k hk).2⟩
   intro cl hcl hin
   have := h.live _ hin
@@ -114,18 +123,18 @@ def wNonAtomic : List Act := [.seed 1 1 (-10), .shiftRead 1 5 none, .shiftRead 2
 
 theorem w_nonatomic (c : Cfg) (h : c.selectAtomic = false) :
     (run c (init false) wNonAtomic).map (fun sp => sp.1.claimed.map (·.key)) = some [1, 1] := by
-  obtain ⟨a, b, c1, d, e, f, g⟩ := c
+  obtain ⟨a, b, c1, d, e, f, g, r⟩ := c
   simp at h; subst h
-  cases b <;> cases c1 <;> cases d <;> cases e <;> cases f <;> cases g <;> decide
+  cases b <;> cases c1 <;> cases d <;> cases e <;> cases f <;> cases g <;> cases r <;> decide
 
 /-- `counter <= howMany`: a request for one record takes two -/
 def wCounter : List Act := [.seed 1 1 (-20), .seed 2 1 (-10), .shift 1 1 none]
 
 theorem w_counter (c : Cfg) (h1 : c.selectAtomic = true) (h2 : c.counterLe = true) :
     (run c (init false) wCounter).map (fun sp => sp.1.batches.map (fun b => (b.howMany, b.got))) = some [(1, [1, 2])] := by
-  obtain ⟨a, b, c1, d, e, f, g⟩ := c
+  obtain ⟨a, b, c1, d, e, f, g, r⟩ := c
   simp at h1 h2; subst h1; subst h2
-  cases c1 <;> cases d <;> cases e <;> cases f <;> cases g <;> decide
+  cases c1 <;> cases d <;> cases e <;> cases f <;> cases g <;> cases r <;> decide
 
 /-- no `exp != 0` test: a record whose expiry was just cleared (object written, index not yet
     refreshed) is selected as expired -/
@@ -133,29 +142,29 @@ def wExpZero : List Act := [.seed 1 1 (-10), .expWrite 1 0, .pselect 3 5 false]
 
 theorem w_expzero (c : Cfg) (h1 : c.selectAtomic = true) (h2 : c.counterLe = false) (h3 : c.checksExpNonZero = false) :
     (run c (init false) wExpZero).map (fun sp => sp.1.pclaimed.map (fun cl => (cl.key, cl.ok))) = some [(1, false)] := by
-  obtain ⟨a, b, c1, d, e, f, g⟩ := c
+  obtain ⟨a, b, c1, d, e, f, g, r⟩ := c
   simp at h1 h2 h3; subst h1; subst h2; subst h3
-  cases d <;> cases e <;> cases f <;> cases g <;> decide
+  cases d <;> cases e <;> cases f <;> cases g <;> cases r <;> decide
 
 /-- stale candidate set: record 1 leaves the filter between the snapshot and the selection -/
-def wStale : List Act := [.seed 1 1 (-10), .snapshot 1 1, .setStatus 1 2, .shift 1 5 (some 1)]
+def wStale : List Act := [.seed 1 1 (-10), .snapshot 1 1, .setStatus 1 2, .shift 1 5 (some 1), .shiftDel 1 1]
 
 theorem w_stale (c : Cfg) (h1 : c.selectAtomic = true) (h2 : c.counterLe = false) (h3 : c.checksExpNonZero = true)
     (h4 : c.rechecksIndexedLeg = false) :
     (run c (init false) wStale).map (fun sp => sp.1.claimed.map (fun cl => (cl.key, cl.ok))) = some [(1, false)] := by
-  obtain ⟨a, b, c1, d, e, f, g⟩ := c
+  obtain ⟨a, b, c1, d, e, f, g, r⟩ := c
   simp at h1 h2 h3 h4; subst h1; subst h2; subst h3; subst h4
-  cases e <;> cases f <;> cases g <;> decide
+  cases e <;> cases f <;> cases g <;> cases r <;> decide
 
 /-- the same schedule shape with an *empty* snapshot: nothing matches `status = 1`, the nil key set
     lets record 1 (status 2) through -/
-def wEmpty : List Act := [.seed 1 2 (-10), .snapshot 1 1, .shift 1 5 (some 1)]
+def wEmpty : List Act := [.seed 1 2 (-10), .snapshot 1 1, .shift 1 5 (some 1), .shiftDel 1 1]
 
-theorem w_empty (e f : Bool) :
+theorem w_empty (e f r : Bool) :
     (run { selectAtomic := true, counterLe := false, checksExpNonZero := true, rechecksIndexedLeg := false,
-           reindexChecksExists := e, patchChecksExists := f, emptyCandMeansAll := true } (init false) wEmpty).map
+           reindexChecksExists := e, patchChecksExists := f, emptyCandMeansAll := true, deleteRevalidates := r } (init false) wEmpty).map
       (fun sp => sp.1.claimed.map (fun cl => (cl.key, cl.ok))) = some [(1, false)] := by
-  cases e <;> cases f <;> decide
+  cases e <;> cases f <;> cases r <;> decide
 
 /-- delete between PatchExpired's selection and its patch: the patch's save re-inserts the record -/
 def wPatch : List Act := [.seed 1 1 (-10), .pselect 3 5 false, .delete 1, .ppatch 3 1 4 5000]
@@ -163,9 +172,9 @@ def wPatch : List Act := [.seed 1 1 (-10), .pselect 3 5 false, .delete 1, .ppatc
 theorem w_patch (c : Cfg) (h1 : c.selectAtomic = true) (h2 : c.counterLe = false) (h3 : c.checksExpNonZero = true)
     (h4 : c.rechecksIndexedLeg = true) (h5 : c.patchChecksExists = false) :
     (run c (init false) wPatch).map (fun sp => (sp.1.deleted, (sp.1.recs 1).present)) = some ([1], true) := by
-  obtain ⟨a, b, c1, d, e, f, g⟩ := c
+  obtain ⟨a, b, c1, d, e, f, g, r⟩ := c
   simp at h1 h2 h3 h4 h5; subst h1; subst h2; subst h3; subst h4; subst h5
-  cases e <;> cases g <;> decide
+  cases e <;> cases g <;> cases r <;> decide
 
 /-- delete between the patches and ReindexExpiration: the deleted record is appended to the index -/
 def wReindex : List Act := [.seed 1 1 (-10), .pselect 3 5 false, .ppatch 3 1 5 (-5), .delete 1, .preindex 3]
@@ -173,9 +182,30 @@ def wReindex : List Act := [.seed 1 1 (-10), .pselect 3 5 false, .ppatch 3 1 5 (
 theorem w_reindex (c : Cfg) (h1 : c.selectAtomic = true) (h2 : c.counterLe = false) (h3 : c.checksExpNonZero = true)
     (h4 : c.rechecksIndexedLeg = true) (h5 : c.patchChecksExists = true) (h6 : c.reindexChecksExists = false) :
     (run c (init false) wReindex).map (fun sp => (sp.1.index, (sp.1.recs 1).present)) = some ([1], false) := by
-  obtain ⟨a, b, c1, d, e, f, g⟩ := c
+  obtain ⟨a, b, c1, d, e, f, g, r⟩ := c
   simp at h1 h2 h3 h4 h5 h6; subst h1; subst h2; subst h3; subst h4; subst h5; subst h6
-  cases g <;> decide
+  cases g <;> cases r <;> decide
+
+/-- the delete step of a shift claim does not look again: record 1 is deleted by somebody else between the
+    selection pass and the claim's delete step, and is handed out all the same -/
+def wShiftDeleted : List Act := [.seed 1 1 (-10), .shift 1 5 none, .delete 1, .shiftDel 1 1]
+
+theorem w_shift_deleted (c : Cfg) (h1 : c.selectAtomic = true) (h7 : c.deleteRevalidates = false) :
+    (run c (init false) wShiftDeleted).map (fun sp => (sp.1.claimed.map (fun cl => (cl.key, cl.ok)), sp.1.deleted)) =
+      some ([(1, false)], [1]) := by
+  obtain ⟨a, b, c1, d, e, f, g, r⟩ := c
+  simp at h1 h7; subst h1; subst h7
+  cases b <;> cases c1 <;> cases d <;> cases e <;> cases f <;> cases g <;> decide
+
+/-- … and a write acknowledged between the two steps is dropped: the copy handed out is the one of the selection pass -/
+def wShiftStaleCopy : List Act := [.seed 1 1 (-10), .shift 1 5 none, .setStatus 1 2, .shiftDel 1 1]
+
+theorem w_shift_stale_copy (c : Cfg) (h1 : c.selectAtomic = true) (h7 : c.deleteRevalidates = false) :
+    (run c (init false) wShiftStaleCopy).map (fun sp => (sp.1.claimed.map (fun cl => (cl.key, cl.ok)), (sp.1.recs 1).present)) =
+      some ([(1, false)], false) := by
+  obtain ⟨a, b, c1, d, e, f, g, r⟩ := c
+  simp at h1 h7; subst h1; subst h7
+  cases b <;> cases c1 <;> cases d <;> cases e <;> cases f <;> cases g <;> decide
 
 /-- from a closed run with an observable that contradicts `Safe` -/
 theorem refute {β : Type} (c : Cfg) (persisted : Bool) (sched : List Act) (obs : St × Bool → β) (v : β)
@@ -194,7 +224,8 @@ def findings (c : Cfg) : List String :=
   (if c.rechecksIndexedLeg then [] else ["C11-stale-candidate-set"]) ++
   (if c.emptyCandMeansAll && !c.rechecksIndexedLeg then ["C11-empty-candidate-set-matches-all"] else []) ++
   (if c.patchChecksExists then [] else ["C11-patch-resurrects-deleted"]) ++
-  (if c.reindexChecksExists then [] else ["C11-reindex-resurrects-deleted"])
+  (if c.reindexChecksExists then [] else ["C11-reindex-resurrects-deleted"]) ++
+  (if c.deleteRevalidates then [] else ["C11-shift-delete-not-revalidated"])
 
 theorem refutes_of_findings (c : Cfg) (h : findings c ≠ []) : ¬ Holds c := by
   by_cases h1 : c.selectAtomic = true
@@ -203,7 +234,18 @@ theorem refutes_of_findings (c : Cfg) (h : findings c ≠ []) : ¬ Holds c := by
       · by_cases h4 : c.rechecksIndexedLeg = true
         · by_cases h5 : c.patchChecksExists = true
           · by_cases h6 : c.reindexChecksExists = true
-            · exfalso; apply h; simp [findings, h1, h2, h3, h4, h5, h6]
+            · by_cases h7 : c.deleteRevalidates = true
+              · exfalso; apply h; simp [findings, h1, h2, h3, h4, h5, h6, h7]
+              · have h7' : c.deleteRevalidates = false := by simpa using h7
+                refine refute c false wShiftDeleted _ _ (w_shift_deleted c h1 h7') ?_
+                intro sp ho hs
+                have ho1 := (Prod.mk.inj ho).1
+                cases hc : sp.1.claimed with
+                | nil => rw [hc] at ho1; simp at ho1
+                | cons x xs =>
+                  rw [hc] at ho1; simp at ho1
+                  have := hs.matching x (by rw [hc]; simp)
+                  rw [ho1.1.2] at this; exact absurd this (by simp)
             · have h6' : c.reindexChecksExists = false := by simpa using h6
               refine refute c false wReindex _ _ (w_reindex c h1 h2 h3 h4 h5 h6') ?_
               intro sp ho hs
@@ -259,6 +301,198 @@ theorem refutes_of_findings (c : Cfg) (h : findings c ≠ []) : ¬ Holds c := by
       rw [List.pairwise_cons] at hd
       exact hd.1 y (by simp) (by rw [ho'.1, ho'.2.1])
 
+/-! ### deadlock freedom (beacon locks and record guards)
+
+  Locks: `0` the lock of the index beacon a selection pass walks (expiration / value / bucket index),
+  `1` the lock of the key index, `k + 2` the guard of record `k`.  Request kinds, as lock programs:
+
+  * `claim ks`   ShiftExpired / ShiftMatching over the indexed records `ks`: takes lock 0 and, per record, the
+                 guard.  `waitsUnderLock`: it *waits* for the guard (`StartTreasureGuard(true)`); otherwise it
+                 only tries (`StartTreasureGuard(false)`, a busy record is skipped).
+  * `clone ks`   CloneUnorderedTreasures (GetAll, first build of a field bucket): lock 1, per record the guard;
+                 `waitsUnderLock` as above, otherwise the list is taken under lock 1 and the records are cloned
+                 after it was released.
+  * `delete k`   deleteHandler: guard of `k`, and — `beaconUnderGuard` — the key index and the index beacons are
+                 updated while the guard is held; otherwise after it was released.
+  * `save k`     a Save that (re-)indexes the record: guard of `k`, then lock 0, nested the same way.
+
+  Two consistent orders exist: guard → beacon lock (no pass waits for a guard under a beacon lock) and beacon lock
+  → guard (no guard holder touches a beacon).  The code before the repair mixed them. -/
+
+structure LockCfg where
+  waitsUnderLock : Bool
+  beaconUnderGuard : Bool
+  deriving DecidableEq, Repr
+
+inductive Req where
+  | claim (ks : List Nat)
+  | clone (ks : List Nat)
+  | delete (k : Nat)
+  | save (k : Nat)
+  | idle
+  deriving Repr
+
+open Hv.LockOrder in
+def passBody (wait : Bool) : List Nat → List Op
+  | [] => []
+  | k :: ks => (if wait then Op.acq (k + 2) else Op.try (k + 2) 1) :: Op.rel (k + 2) :: passBody wait ks
+
+open Hv.LockOrder in
+def guardEach : List Nat → List Op
+  | [] => []
+  | k :: ks => Op.acq (k + 2) :: Op.rel (k + 2) :: guardEach ks
+
+open Hv.LockOrder in
+def prog (c : LockCfg) : Req → List Op
+  | .claim ks => Op.acq 0 :: (passBody c.waitsUnderLock ks ++ [Op.rel 0])
+  | .clone ks => if c.waitsUnderLock then Op.acq 1 :: (passBody true ks ++ [Op.rel 1])
+                 else Op.acq 1 :: Op.rel 1 :: guardEach ks
+  | .delete k => if c.beaconUnderGuard then [.acq (k + 2), .acq 1, .rel 1, .acq 0, .rel 0, .rel (k + 2)]
+                 else [.acq (k + 2), .rel (k + 2), .acq 1, .rel 1, .acq 0, .rel 0]
+  | .save k => if c.beaconUnderGuard then [.acq (k + 2), .acq 0, .rel 0, .rel (k + 2)]
+               else [.acq (k + 2), .rel (k + 2), .acq 0, .rel 0]
+  | .idle => []
+
+/-- No reachable state of any assignment of requests to threads is a deadlock. -/
+def DeadlockFree (c : LockCfg) : Prop :=
+  ∀ (reqs : Nat → Req) (sched : List Nat) (s : LockOrder.St),
+    LockOrder.run (LockOrder.init (fun t => prog c (reqs t))) sched = some s → ¬ LockOrder.Stuck s
+
+/-- guards first: a guard ranks below the beacon locks -/
+def rankGuardFirst (l : Nat) : Nat := if l < 2 then 1 else 0
+/-- beacon locks first -/
+def rankBeaconFirst (l : Nat) : Nat := if l < 2 then 0 else 1
+
+open Hv.LockOrder in
+private theorem ordered_guardEach (rank : Nat → Nat) (ks : List Nat) : Ordered rank [] (guardEach ks) := by
+  induction ks with
+  | nil => exact .nil
+  | cons k ks ih =>
+    refine .acq (by simp) (.rel (by simp) ?_)
+    simpa using ih
+
+open Hv.LockOrder in
+private theorem ordered_try_pass (rank : Nat → Nat) (b : Nat) (hb : b < 2) (ks : List Nat) :
+    Ordered rank [b] (passBody false ks ++ [Op.rel b]) := by
+  induction ks with
+  | nil => exact .rel (by simp) (by simpa using Ordered.nil)
+  | cons k ks ih =>
+    have hne : (b != k + 2) = true := by simp; omega
+    refine .try (.rel (by simp) ?_) (by simpa [passBody] using ih)
+    simpa [List.filter, hne] using ih
+
+open Hv.LockOrder in
+private theorem ordered_wait_pass (b : Nat) (hb : b < 2) (ks : List Nat) :
+    Ordered rankBeaconFirst [b] (passBody true ks ++ [Op.rel b]) := by
+  induction ks with
+  | nil => exact .rel (by simp) (by simpa using Ordered.nil)
+  | cons k ks ih =>
+    have hne : (b != k + 2) = true := by simp; omega
+    refine .acq ?_ (.rel (by simp) ?_)
+    · intro h hh
+      simp at hh; subst hh
+      have : ¬ k + 2 < 2 := by omega
+      simp [rankBeaconFirst, hb, this]
+    · simpa [List.filter, hne] using ih
+
+open Hv.LockOrder in
+theorem ordered_guardFirst (bug : Bool) (r : Req) :
+    Ordered rankGuardFirst [] (prog { waitsUnderLock := false, beaconUnderGuard := bug } r) := by
+  cases r with
+  | claim ks => exact .acq (by simp) (ordered_try_pass _ 0 (by omega) ks)
+  | clone ks =>
+    refine .acq (by simp) (.rel (by simp) ?_)
+    simpa using ordered_guardEach _ ks
+  | delete k =>
+    cases bug
+    · refine .acq (by simp) (.rel (by simp) (.acq (by simp) (.rel (by simp) (.acq (by simp) (.rel (by simp) ?_)))))
+      simpa using Ordered.nil
+    · have h1 : (k + 2 != 1) = true := by simp
+      have h0 : (k + 2 != 0) = true := by simp
+      refine .acq (by simp) (.acq (by simp [rankGuardFirst]) (.rel (by simp) ?_))
+      simp only [List.filter, bne_self_eq_false, h1]
+      refine .acq (by simp [rankGuardFirst]) (.rel (by simp) ?_)
+      simp only [List.filter, bne_self_eq_false, h0]
+      refine .rel (by simp) ?_
+      simpa using Ordered.nil
+  | save k =>
+    cases bug
+    · refine .acq (by simp) (.rel (by simp) (.acq (by simp) (.rel (by simp) ?_)))
+      simpa using Ordered.nil
+    · have h0 : (k + 2 != 0) = true := by simp
+      refine .acq (by simp) (.acq (by simp [rankGuardFirst]) (.rel (by simp) ?_))
+      simp only [List.filter, bne_self_eq_false, h0]
+      refine .rel (by simp) ?_
+      simpa using Ordered.nil
+  | idle => exact .nil
+
+open Hv.LockOrder in
+theorem ordered_beaconFirst (r : Req) :
+    Ordered rankBeaconFirst [] (prog { waitsUnderLock := true, beaconUnderGuard := false } r) := by
+  cases r with
+  | claim ks => exact .acq (by simp) (ordered_wait_pass 0 (by omega) ks)
+  | clone ks => exact .acq (by simp) (ordered_wait_pass 1 (by omega) ks)
+  | delete k =>
+    refine .acq (by simp) (.rel (by simp) (.acq (by simp) (.rel (by simp) (.acq (by simp) (.rel (by simp) ?_)))))
+    simpa using Ordered.nil
+  | save k =>
+    refine .acq (by simp) (.rel (by simp) (.acq (by simp) (.rel (by simp) ?_)))
+    simpa using Ordered.nil
+  | idle => exact .nil
+
+/-- **The repaired order** (what the code does after the repair: selection passes only *try* the guards, the clone
+    passes clone outside the beacon lock; deleteHandler and Save still update the beacons under the guard):
+    guard → beacon lock is a consistent global order, so the wait-for graph is acyclic in every reachable state —
+    for any number of threads, any mix of the four request kinds and any key lists. -/
+theorem no_deadlock_repaired : DeadlockFree { waitsUnderLock := false, beaconUnderGuard := true } := by
+  intro reqs sched s hr
+  exact LockOrder.no_deadlock rankGuardFirst 1 (fun l => by unfold rankGuardFirst; split <;> omega) _
+    (fun t => ordered_guardFirst true (reqs t)) sched s hr
+
+/-- The other consistent order (beacon lock → guard): passes may wait for guards under the beacon lock as long as
+    no guard holder touches a beacon. -/
+theorem no_deadlock_beacon_first : DeadlockFree { waitsUnderLock := true, beaconUnderGuard := false } := by
+  intro reqs sched s hr
+  exact LockOrder.no_deadlock rankBeaconFirst 1 (fun l => by unfold rankBeaconFirst; split <;> omega) _
+    (fun t => ordered_beaconFirst (reqs t)) sched s hr
+
+theorem no_deadlock_neither (bug : Bool) : DeadlockFree { waitsUnderLock := false, beaconUnderGuard := bug } := by
+  intro reqs sched s hr
+  exact LockOrder.no_deadlock rankGuardFirst 1 (fun l => by unfold rankGuardFirst; split <;> omega) _
+    (fun t => ordered_guardFirst bug (reqs t)) sched s hr
+
+def lockWitnessReqs (other : Req) : Nat → Req := fun t => if t = 1 then other else if t = 2 then .claim [1] else .idle
+
+/-- **The current order deadlocks**: a delete (or an index-refreshing save) that holds the guard of record 1 and a
+    selection pass that holds the beacon lock wait for each other.  Closed witness, two threads, two steps. -/
+theorem deadlock_mixed_order (viaSave : Bool) : ¬ DeadlockFree { waitsUnderLock := true, beaconUnderGuard := true } := by
+  intro h
+  cases viaSave
+  · -- delete k1 ‖ claim: D takes the guard, then the key-index lock, releases it; S takes lock 0; both wait
+    refine h (lockWitnessReqs (.delete 1)) [1, 2, 1, 1] _ rfl ⟨⟨1, by decide⟩, fun t => ?_⟩
+    by_cases h1 : t = 1
+    · subst h1; rfl
+    · by_cases h2 : t = 2
+      · subst h2; rfl
+      · simp [LockOrder.step, LockOrder.upd, LockOrder.init, lockWitnessReqs, prog, h1, h2]
+  · refine h (lockWitnessReqs (.save 1)) [1, 2] _ rfl ⟨⟨1, by decide⟩, fun t => ?_⟩
+    by_cases h1 : t = 1
+    · subst h1; rfl
+    · by_cases h2 : t = 2
+      · subst h2; rfl
+      · simp [LockOrder.step, LockOrder.upd, LockOrder.init, lockWitnessReqs, prog, h1, h2]
+
+/-- the same inversion through the key index: deleteHandler against GetAll / the first build of a field bucket -/
+theorem deadlock_mixed_order_clone : ∃ sched s,
+    LockOrder.run (LockOrder.init (fun t => prog { waitsUnderLock := true, beaconUnderGuard := true }
+      (if t = 1 then .delete 1 else if t = 2 then .clone [1] else .idle))) sched = some s ∧ LockOrder.Stuck s := by
+  refine ⟨[1, 2], _, rfl, ⟨1, by decide⟩, fun t => ?_⟩
+  by_cases h1 : t = 1
+  · subst h1; rfl
+  · by_cases h2 : t = 2
+    · subst h2; rfl
+    · simp [LockOrder.step, LockOrder.upd, LockOrder.init, prog, h1, h2]
+
 /-! ### decision over the extracted facts -/
 
 inductive Cmp where | lt | le | unknown
@@ -272,9 +506,10 @@ structure Facts where
   reindexChecksExists : Tri
   patchChecksExists : Tri
   emptyCandMeansAll : Tri
-  /-- lock-order facts (not used by `classify`; the schedule driver uses them to predict the
-      beacon-lock / record-guard inversion): the selection pass takes record guards while holding the
-      beacon lock; deleteHandler updates the beacons while holding the record guard -/
+  /-- CloneAndDelete…Treasures: the per-record delete after the selection pass re-validates under the record guard -/
+  shiftDeleteRevalidates : Tri
+  /-- lock-order facts: some beacon method waits for a record guard while holding the beacon lock;
+      deleteHandler updates the beacons while holding the record guard -/
   guardUnderBeaconLock : Tri
   beaconUnderGuard : Tri
   deriving Repr
@@ -283,7 +518,16 @@ def cfgOf (f : Facts) : Cfg :=
   { selectAtomic := f.selectUnderLock.isYes, counterLe := f.counterCmp == .le,
     checksExpNonZero := f.checksExpNonZero.isYes, rechecksIndexedLeg := f.rechecksIndexedLeg.isYes,
     reindexChecksExists := f.reindexChecksExists.isYes, patchChecksExists := f.patchChecksExists.isYes,
-    emptyCandMeansAll := !f.emptyCandMeansAll.isNo }
+    emptyCandMeansAll := !f.emptyCandMeansAll.isNo, deleteRevalidates := f.shiftDeleteRevalidates.isYes }
+
+def lockCfgOf (f : Facts) : LockCfg :=
+  { waitsUnderLock := !f.guardUnderBeaconLock.isNo, beaconUnderGuard := !f.beaconUnderGuard.isNo }
+
+/-- the full statement: safe claims and no deadlock between beacon locks and record guards -/
+def HoldsAll (f : Facts) : Prop := Holds (cfgOf f) ∧ DeadlockFree (lockCfgOf f)
+
+def lockFindings (c : LockCfg) : List String :=
+  if c.waitsUnderLock && c.beaconUnderGuard then ["C11-claim-delete-deadlock"] else []
 
 def classify (f : Facts) : Verdict :=
   if f.selectUnderLock = .unknown then .undetermined "claim.selectUnderLock" else
@@ -293,11 +537,22 @@ def classify (f : Facts) : Verdict :=
   if f.reindexChecksExists = .unknown then .undetermined "patchExpired.reindexChecksExists" else
   if f.patchChecksExists = .unknown then .undetermined "patchExpired.patchChecksExists" else
   if f.emptyCandMeansAll = .unknown then .undetermined "shiftMatching.emptyCandMeansAll" else
-  match findings (cfgOf f) with
+  if f.shiftDeleteRevalidates = .unknown then .undetermined "shift.deleteRevalidates" else
+  if f.guardUnderBeaconLock = .unknown then .undetermined "claim.guardUnderBeaconLock" else
+  if f.beaconUnderGuard = .unknown then .undetermined "delete.beaconUnderGuard" else
+  match findings (cfgOf f) ++ lockFindings (lockCfgOf f) with
   | [] => if cfgOf f = good then .holds else .undetermined "no theorem covers this combination of facts"
   | fs => .violated fs
 
-theorem classify_sound (f : Facts) : (classify f).Sound (Holds (cfgOf f)) (HoldsPartial (cfgOf f)) := by
+theorem deadlockFree_of_no_findings (c : LockCfg) (h : lockFindings c = []) : DeadlockFree c := by
+  obtain ⟨w, b⟩ := c
+  cases w
+  · exact no_deadlock_neither b
+  · cases b
+    · exact no_deadlock_beacon_first
+    · simp [lockFindings] at h
+
+theorem classify_sound (f : Facts) : (classify f).Sound (HoldsAll f) (HoldsPartial (cfgOf f)) := by
   unfold classify
   split; · trivial
   split; · trivial
@@ -306,13 +561,26 @@ theorem classify_sound (f : Facts) : (classify f).Sound (Holds (cfgOf f)) (Holds
   split; · trivial
   split; · trivial
   split; · trivial
+  split; · trivial
+  split; · trivial
+  split; · trivial
   split
-  · split
+  · rename_i hnil
+    have hn := List.append_eq_nil_iff.mp hnil
+    split
     · rename_i hg
-      show Holds (cfgOf f)
-      rw [hg]; exact claims_safe
+      show Holds (cfgOf f) ∧ DeadlockFree (lockCfgOf f)
+      exact ⟨by rw [hg]; exact claims_safe, deadlockFree_of_no_findings _ hn.2⟩
     · trivial
   · rename_i fs hne
-    exact ⟨refutes_of_findings _ (fun he => hne he), holds_partial _⟩
+    refine ⟨fun hh => ?_, holds_partial _⟩
+    by_cases h1 : findings (cfgOf f) = []
+    · have h2 : lockFindings (lockCfgOf f) ≠ [] := fun h2 => hne (by rw [h1, h2]; rfl)
+      have hc : lockCfgOf f = { waitsUnderLock := true, beaconUnderGuard := true } := by
+        generalize lockCfgOf f = c at h2
+        obtain ⟨w, b⟩ := c
+        cases w <;> cases b <;> simp [lockFindings] at h2 ⊢
+      exact deadlock_mixed_order false (hc ▸ hh.2)
+    · exact refutes_of_findings _ h1 hh.1
 
 end Hv.C11
